@@ -118,6 +118,17 @@ func init() {
 		}
 		return n
 	})
+	reg(vrt+"DumpGoroutines", func(fr *frame, a []value) value {
+		d := ""
+		for _, g := range fr.w.sched.gs {
+			st := [...]string{"runnable", "running", "blocked", "done"}[g.state]
+			if g.state == gBlocked {
+				d += fmt.Sprintf("g%d(%s):%s:%s ", g.id, g.name, st, g.waitDesc)
+			}
+		}
+		fr.w.event("goroutines: " + d)
+		return nil
+	})
 	reg(vrt+"Finish", nop)
 	reg(vrt+"SetNativeQuiesceMs", nop)
 	// Stub(name, fn): calls to the function named name (ssa String form) are
